@@ -26,6 +26,25 @@ struct Srv : public WebSocketServer {
 };
 static std::string unhex(const char* h) { std::string r; for (size_t i = 0; h[i] && h[i + 1]; i += 2) { char b[3] = { h[i], h[i + 1], 0 }; r.push_back((char)strtoul(b, 0, 16)); } return r; }
 static bool readAll(Socket& s, void* p, int n) { return n == 0 || s.read(p, n) == n; }
+static int echo_one(Socket& s, int n, int pieces) {
+	ByteArray msg(n); for (int i = 0; i < n; i++) msg[i] = byte(i * 13 + 5 + n);
+	byte key[4] = { 0x37, 0x00, 0x21, 0xff }; ByteArray f;
+	// the message goes out in `pieces` frames (fragmentation, RFC 6455 5.4): first opcode 2 (binary), then continuation frames, FIN on the last
+	for (int p = 0; p < pieces; p++) { int from = (int)((long long)n * p / pieces), to = (int)((long long)n * (p + 1) / pieces), m = to - from;
+		f << byte((p == pieces - 1 ? 0x80 : 0x00) | (p == 0 ? 0x02 : 0x00));
+		if (m < 126) f << byte(0x80 | m); else if (m < 65536) f << byte(0x80 | 126) << byte(m >> 8) << byte(m); else { f << byte(0x80 | 127); for (int i = 7; i >= 0; i--) f << byte((unsigned long long)m >> (8 * i)); }
+		for (int i = 0; i < 4; i++) f << key[i];
+		for (int i = 0; i < m; i++) f << byte(msg[from + i] ^ key[i & 3]); }
+	s.write(f.data(), f.length());
+	if (!s.waitInput(5)) { printf("REPRODUCED no echo for a %d-byte message sent in %d frame(s)\n", n, pieces); return 1; }
+	byte h[2]; if (!readAll(s, h, 2)) { printf("REPRODUCED truncated header\n"); return 1; }
+	unsigned long long len = h[1] & 0x7f; int form = (int)len;
+	if (len == 126) { byte e[2]; readAll(s, e, 2); len = (unsigned)e[0] << 8 | e[1]; } else if (len == 127) { byte e[8]; readAll(s, e, 8); len = 0; for (int i = 0; i < 8; i++) len = len << 8 | e[i]; }
+	int wantform = n <= 125 ? n : n <= 65535 ? 126 : 127;
+	if (h[0] != 0x82 || form != wantform || len != (unsigned long long)n) { printf("REPRODUCED echo of %d bytes (sent in %d frame(s)) framed as first=%02x form=%d length=%llu\n", n, pieces, h[0], form, len); return 1; }
+	ByteArray back((int)len); if (!readAll(s, back.data(), (int)len) || back != msg) { printf("REPRODUCED echoed payload of %d bytes (sent in %d frame(s)) differs\n", n, pieces); return 1; }
+	return 0;
+}
 int main(int argc, char** argv)
 {
 	std::string cmd = argc > 1 ? argv[1] : "";
@@ -46,19 +65,13 @@ int main(int argc, char** argv)
 		printf("OK (delivered length %d)\n", g_len); return 0;
 	}
 	if (cmd == "echo") {
-		int n = atoi(argv[2]); ByteArray msg(n); for (int i = 0; i < n; i++) msg[i] = byte(i * 13 + 5);
-		byte key[4] = { 0x37, 0x00, 0x21, 0xff }; ByteArray f; f << byte(0x82);
-		if (n < 126) f << byte(0x80 | n); else if (n < 65536) f << byte(0x80 | 126) << byte(n >> 8) << byte(n); else { f << byte(0x80 | 127); for (int i = 7; i >= 0; i--) f << byte((unsigned long long)n >> (8 * i)); }
-		for (int i = 0; i < 4; i++) f << key[i];
-		for (int i = 0; i < n; i++) f << byte(msg[i] ^ key[i & 3]);
-		s.write(f.data(), f.length());
-		if (!s.waitInput(5)) { printf("REPRODUCED no echo for a %d-byte message\n", n); return 1; }
-		byte h[2]; if (!readAll(s, h, 2)) { printf("REPRODUCED truncated header\n"); return 1; }
-		unsigned long long len = h[1] & 0x7f; int form = (int)len;
-		if (len == 126) { byte e[2]; readAll(s, e, 2); len = (unsigned)e[0] << 8 | e[1]; } else if (len == 127) { byte e[8]; readAll(s, e, 8); len = 0; for (int i = 0; i < 8; i++) len = len << 8 | e[i]; }
-		int wantform = n <= 125 ? n : n <= 65535 ? 126 : 127;
-		if (h[0] != 0x82 || form != wantform || len != (unsigned long long)n) { printf("REPRODUCED echo of %d bytes framed as first=%02x form=%d length=%llu\n", n, h[0], form, len); return 1; }
-		ByteArray back((int)len); if (!readAll(s, back.data(), (int)len) || back != msg) { printf("REPRODUCED echoed payload differs\n"); return 1; }
+		if (echo_one(s, atoi(argv[2]), 1)) return 1;
+		printf("OK\n"); fflush(stdout); _exit(0);
+	}
+	if (cmd == "battery") {            // every length form boundary, then fragmented messages, on one connection (messages must stay in order and separate)
+		int lens[] = { 1, 2, 125, 126, 127, 1000, 32767, 32768, 40000, 65535, 65536, 70000, 3 };
+		for (int n : lens) if (echo_one(s, n, 1)) return 1;
+		for (int pieces : { 2, 3, 5 }) for (int n : { 10, 300, 70000 }) if (echo_one(s, n, pieces)) return 1;
 		printf("OK\n"); fflush(stdout); _exit(0);
 	}
 	return 2;
